@@ -88,6 +88,7 @@ impl<T> Polynomial<T> {
     where
         T: Zero + PartialEq,
     {
+        if self.coeffs.is_empty() { return; } // nothing to trim
         let mut i = self.coeffs.len() - 1;
         while self.coeffs[ i ] == T::zero() && i > 0 {
             self.coeffs.pop();
